@@ -620,7 +620,7 @@ impl Check for Fmt {
                                         } else if base_unstable {
                                             format!("formatting is not idempotent at default options on the source {:?} (any layout)", base.text.chars().take(48).collect::<String>())
                                         } else {
-                                            format!("formatting is not idempotent at default options with {} {}", devkind, position)
+                                            format!("formatting is not idempotent at default options with {} {}{}", devkind, position, if base.text.contains("--|") { " (source with a `--|` text block)" } else { "" })
                                         }
                                     } else {
                                         // keyed to the directive and the base source, so that another source or another
@@ -630,7 +630,7 @@ impl Check for Fmt {
                                         let base_unstable = matches!(guarded(|| format_source(&with_cfg).and_then(|a| format_source(&a).map(|b| a != b))), Ok(Ok(true)));
                                         if !base_unstable {
                                             // the deviation is what matters: key to the directive and the deviation site
-                                            format!("formatting is not idempotent under the directive {} with {} {}", cfg.text.trim(), devkind, position)
+                                            format!("formatting is not idempotent under the directive {} with {} {}{}", cfg.text.trim(), devkind, position, if base.text.contains("--|") { " (source with a `--|` text block)" } else { "" })
                                         } else if base.name.starts_with("universe") || base.name.starts_with("poly") {
                                             format!("formatting is not idempotent under an explicit format directive on a generated source: {:?} becomes {:?}", norm_line(out.lines().nth(line).unwrap_or("")), norm_line(again.lines().nth(line).unwrap_or("")))
                                         } else if base.name.starts_with('/') {
